@@ -38,6 +38,7 @@ STUBS = ["os/shutil/open of rope.base.{project,change,resources,resourceobserver
 ROOT = "/rsx-mfs-root"
 
 KINDS = ["edit", "mkfile", "mkdir", "move", "remove"]
+AUX = "zz_redo.py"
 
 
 def instances(tier):
@@ -127,6 +128,8 @@ def make_run(p):
     FILES, DIRS = b["files"], b["dirs"]
     mode, m = p["mode"], p["m"]
 
+    FILES = FILES + [AUX]
+
     def run():
         E = core.ENGINE
         fs = mfs.MFS(ROOT, FILES, DIRS)
@@ -134,11 +137,18 @@ def make_run(p):
         undo_shims = mfs.install(fs)
         try:
             proj = rproject.Project(ROOT, ropefolder=None, automatic_soa=False)
+            # a non-empty redo list (and undo list) before the call under test: create + undo a
+            # dedicated file that is otherwise outside the composites' targets
+            core.assume(fs.kind[AUX] == mfs.ABSENT)
+            proj.do(change.CreateResource(proj.get_file(AUX)))
+            proj.history.undo()
+            fs.ticks = 0
             pre = fs.snapshot()
-            cs, desc = build_composite(proj, fs, m, p["first"], FILES, DIRS)
+            cs, desc = build_composite(proj, fs, m, p["first"], [f_ for f_ in FILES if f_ != AUX], DIRS)
             fs.restore(pre)
             fs.ticks = 0
             _reset_changes(cs)
+            redo_saved = list(proj.history.redo_list)
             # validity: rope's own fault-free run of the composite must succeed on this pre-state
             try:
                 proj.do(cs)
@@ -153,7 +163,8 @@ def make_run(p):
             if mode.startswith("do"):
                 fs.restore(pre)
                 _reset_changes(cs)
-                proj.history.undo_list.clear()
+                del proj.history.undo_list[-1:]  # forget the validity run, keep everything older
+                proj.history.redo_list[:] = redo_saved  # (the successful validity run cleared redo)
                 base = pre
                 undo_before = list(proj.history.undo_list)
                 redo_before = list(proj.history.redo_list)
